@@ -48,6 +48,15 @@ impl Builder {
         }
     }
 
+    /// Verification hook: build a reader from a caller-supplied buffered reader.
+    #[cfg(feature = "verif")]
+    pub fn build_from_bufread<R>(self, reader: R) -> io::Result<super::DynReader>
+    where
+        R: 'static + io::BufRead,
+    {
+        self.build_from_reader(reader)
+    }
+
     fn build_from_reader<R>(self, mut reader: R) -> io::Result<super::DynReader>
     where
         R: 'static + io::BufRead,
